@@ -360,6 +360,10 @@ class SimulatorBase(
         if self._split_untangled_states:
             args_map: dict[cirq.Qid | None, TSimulationState] = {}
             if isinstance(initial_state, int):
+                if not 0 <= initial_state < np.prod([q.dimension for q in qubits], dtype=object):
+                    raise ValueError(
+                        f'Computational basis state is out of range: {initial_state} for {qubits}'
+                    )
                 for q in reversed(qubits):
                     args_map[q] = self._create_partial_simulation_state(
                         initial_state=initial_state % q.dimension,
